@@ -36,27 +36,46 @@ var c08Cfgs = func() []Cfg {
 // quick tier: compact + 4 pretty option sets
 var c08Quick = []int{0, 1, 2, 7, 20}
 
-// colToOffset converts (line, col) to a byte offset where col is counted in UTF-16 units (unit=16) or
-// bytes (unit=8).
-func colToOffset(text string, line, col, unit int) int {
-	if unit == 8 {
-		return ref.OffsetOf(text, line, col)
-	}
+// lineStart returns the byte offset at which line `line` starts; generated code follows the line model the
+// source-map builder is specified with (C09: LF, CRLF and a lone CR are one line break each), source text
+// the lexer's model (LF).
+func lineStart(text string, line int, crBreaks bool) int {
 	off := 0
 	for l := 0; l < line; l++ {
-		k := strings.IndexByte(text[off:], '\n')
-		if k < 0 {
+		i := off
+		for i < len(text) && text[i] != '\n' && !(crBreaks && text[i] == '\r') {
+			i++
+		}
+		if i >= len(text) {
 			return -1
 		}
-		off += k + 1
+		if text[i] == '\r' && i+1 < len(text) && text[i+1] == '\n' {
+			i++
+		}
+		off = i + 1
+	}
+	return off
+}
+
+// colToOffset converts (line, col) to a byte offset where col is counted in UTF-16 units (unit=16) or
+// bytes (unit=8).
+func colToOffset(text string, line, col, unit int, crBreaks bool) int {
+	off := lineStart(text, line, crBreaks)
+	if off < 0 || col < 0 {
+		return -1
 	}
 	units := 0
 	for i := off; ; {
 		if units == col {
 			return i
 		}
-		if i >= len(text) || text[i] == '\n' || units > col {
+		if i >= len(text) || text[i] == '\n' || (crBreaks && text[i] == '\r') || units > col {
 			return -1
+		}
+		if unit == 8 {
+			units++
+			i++
+			continue
 		}
 		r, sz := utf8.DecodeRuneInString(text[i:])
 		units += len(utf16.Encode([]rune{r}))
@@ -138,7 +157,7 @@ func c08Check(src string, cfg Cfg) (kind, detail string, nseg int, accepted bool
 		ok := false
 		for _, unit := range []int{16, 8} {
 			k, d := func() (string, string) {
-				gOff := colToOffset(co.Code, s.GenLine, s.GenCol, unit)
+				gOff := colToOffset(co.Code, s.GenLine, s.GenCol, unit, true)
 				if gOff < 0 {
 					return "generated-position-outside", fmt.Sprintf("segment %d (%s): no such position in the generated code; %s", i, s, ctx())
 				}
@@ -146,7 +165,7 @@ func c08Check(src string, cfg Cfg) (kind, detail string, nseg int, accepted bool
 				if tg == nil {
 					return "generated-position-not-a-token", fmt.Sprintf("segment %d (%s): no token of the generated code starts there (offset %d, text there %q); %s", i, s, gOff, core.Short(co.Code[gOff:], 12), ctx())
 				}
-				sOff := colToOffset(src, s.SrcLine, s.SrcCol, unit)
+				sOff := colToOffset(src, s.SrcLine, s.SrcCol, unit, false)
 				if sOff < 0 {
 					return "source-position-outside", fmt.Sprintf("segment %d (%s): no such position in the source; %s", i, s, ctx())
 				}
@@ -280,7 +299,8 @@ func c08Run(c *core.Ctx) {
 	if c.Thorough() {
 		level, k = 2, 2
 	}
-	gaps := []string{"\n", "", " // c\n", "\n\n", "\n    ", "\t"}
+	gaps := []string{"\n", "", " // c\n", "\n\n", "\n    ", "\t", "\r\n", " // c\r\n"}
+	prefixes := []string{"\n", "\n\n", "// c\n", "\n// c\n\n", "  ", "\r\n", "// c\r\n", "\n  // c\n  "}
 	gen.Programs(level, func(prog []*gen.Node, name string) {
 		if !c.Next() || c.Tick() {
 			return
@@ -290,6 +310,9 @@ func c08Run(c *core.Ctx) {
 		kk := k
 		if len(toks) > 36 && kk > 1 {
 			kk = 1
+		}
+		for _, pre := range prefixes {
+			run(pre+gen.RenderDefault(toks), len(toks)*4+1, nil, "")
 		}
 		gen.Layouts(toks, kk, gaps, func(text string, devs []gen.Dev) {
 			run(text, len(toks)*4+len(devs), nil, "")
@@ -342,4 +365,14 @@ func init() {
 		QuickSec: 300, ThorSec: 2400, Run: c08Run, Replay: c08Replay,
 		Evals: "maps_checked", Nontriv: "maps_of_multiline_sources",
 	})
+}
+
+// C08Try runs the check on one source in every configuration (debugging aid).
+func C08Try(src string) string {
+	for i, cfg := range c08Cfgs {
+		if k, d, _, _ := c08Check(src, cfg); k != "" {
+			return fmt.Sprintf("cfg %d %s: %s: %s", i, cfg, k, d)
+		}
+	}
+	return "ok"
 }
